@@ -66,6 +66,10 @@ Fixpoint picks {A : Type} (pre l : list A) : list (A * list A) :=
   | x :: r => (x, pre ++ r) :: picks (pre ++ [x]) r
   end.
 
+(* existsb with a lazy disjunction (vm_compute is call-by-value: [||] would evaluate every alternative) *)
+Fixpoint anyb {A : Type} (f : A -> bool) (l : list A) : bool :=
+  match l with [] => false | a :: r => if f a then true else anyb f r end.
+
 Fixpoint linb (fuel : nat) (m : amap) (h : list hop) : bool :=
   match h with
   | [] => true
@@ -73,10 +77,11 @@ Fixpoint linb (fuel : nat) (m : amap) (h : list hop) : bool :=
     match fuel with
     | O => false
     | S f =>
-      existsb (fun p : hop * list hop =>
-                 forallb (fun x => h_inv (fst p) <? h_res x) (snd p) &&
-                 (let rm := spec_step m (h_op (fst p)) in (fst rm =? h_ret (fst p))%N && linb f (snd rm) (snd p)))
-              (picks [] h)
+      anyb (fun p : hop * list hop =>
+              if forallb (fun x => h_inv (fst p) <? h_res x) (snd p)
+              then (let rm := spec_step m (h_op (fst p)) in if (fst rm =? h_ret (fst p))%N then linb f (snd rm) (snd p) else false)
+              else false)
+           (picks [] h)
     end
   end.
 Definition linearizable_b (m : amap) (h : list hop) : bool := linb (length h) m h.
